@@ -232,6 +232,7 @@ def run_unit(unit, canaries=True, keep=None):
         pass
     canary_names = set(f['name'] for f in gen.functions if f['canary'])
     real_names = set(f['name'] for f in gen.functions if not f['canary'])
+    bodiless = set(f['name'] for f in gen.functions if f.get('bodiless'))
     canary_failed = set(r['fn'] for r in fails if r['canary'])
     failed_fns = set(r['fn'] for r in fails if r['fn'] and not r['canary'])
     # canary must fail with the `false` postcondition
@@ -286,7 +287,7 @@ def run_unit(unit, canaries=True, keep=None):
         res['status'] = 'undecided'
         res['reason'] = 'vacuity guard: no obligations generated'
         return res
-    missing = [n for n in real_names if not any(o['function'].split('::')[-1] == n for o in obligations)]
+    missing = [n for n in real_names if n not in bodiless and not any(o['function'].split('::')[-1] == n for o in obligations)]
     if missing:
         res['status'] = 'undecided'
         res['reason'] = 'vacuity guard: no verification query was generated for ' + ', '.join(sorted(missing))
